@@ -46,6 +46,10 @@ func sig(s Scn, check string) map[string]string {
 	m := map[string]string{"spec": "FSAuth", "role": s.Role, "check": check}
 	if s.Role == "client" {
 		m["fault"] = s.Fault
+		if s.Remover == "nobody" {
+			m["remover"] = "nobody"
+			m["verdict"] = s.Verdict
+		}
 		if s.Valid {
 			m["path"] = "valid"
 		} else {
@@ -125,17 +129,24 @@ func (e *Env) Compare(c Concrete, o Obs) *Diff {
 			chk = "created_for_invalid_path"
 		}
 		return &Diff{Sig: sig(s, chk),
-			Detail: fmt.Sprintf("server sent %q, fault %s: FSAuth!RemovedWhenComplete expects nothing left once the client exchange returned (error %q), found %v", o.SentPath, s.Fault, o.ClientErr, o.After)}
+			Detail: fmt.Sprintf("server sent %q, fault %s%s: FSAuth!RemovedWhenComplete expects nothing left once the client exchange returned (error %q), found %v", o.SentPath, s.Fault, removerNote(s, o), o.ClientErr, o.After)}
 	}
 	if s.Fault != "none" && o.ClientErr == "" {
 		return &Diff{Sig: sig(s, "success_despite_fault"), Detail: fmt.Sprintf("fault %s but ClientHandshake returned nil", s.Fault)}
 	}
-	if c.Own && s.Fault == "none" {
+	if c.Own && s.Fault == "none" && s.Remover != "nobody" {
 		if o.ClientErr != "" || !o.ServerKnown || o.Server.Err != "" {
 			return &Diff{Broken: true, Detail: fmt.Sprintf("unmodified exchange failed: client %q server %+v", o.ClientErr, o.Server)}
 		}
 	}
 	return nil
+}
+
+func removerNote(s Scn, o Obs) string {
+	if s.Remover != "nobody" {
+		return ""
+	}
+	return fmt.Sprintf(", the server does not remove the directory and answered the verdict %d", o.Verdict)
 }
 
 func (e *Env) compareServer(c Concrete, o Obs) *Diff {
